@@ -415,11 +415,10 @@ class Interp:
     def exec_loop(self, st, states):
         fl = Flow()
         c = self.client
-        if st.orelse:
-            raise AnalysisError('loop-else is outside the analysed subset (%s:%d)' % (self.func.module.relpath, st.lineno))
         head = set(c.loop_enter(self, s.at(st), st) for s in states)
         seen = set()
         exits = set()
+        breaks = set()          # left by `break`: the else clause of the loop is skipped
         work = set(head)
         it = 0
         while work:
@@ -448,10 +447,21 @@ class Interp:
             body = self.exec_block(st.body, T)
             fl.ret += body.ret
             fl.rais += body.rais
-            exits |= body.brk
+            breaks |= body.brk
             back = body.normal | body.cont
             work = set(c.loop_back(self, s, st) for s in back)
-        fl.normal = set(c.loop_exit(self, s, st) for s in exits)
+        fl.normal = set(c.loop_exit(self, s, st) for s in breaks)
+        done = set(c.loop_exit(self, s, st) for s in exits)
+        if st.orelse:
+            # while/for ... else: the else clause runs when the loop ends because its test failed / its iterable is exhausted
+            e = self.exec_block(st.orelse, done)
+            fl.normal |= e.normal
+            fl.ret += e.ret
+            fl.rais += e.rais
+            fl.brk = e.brk
+            fl.cont = e.cont
+        else:
+            fl.normal |= done
         return fl
 
 
